@@ -69,6 +69,8 @@ def _case(draw, tier):
         else:
             ops.append(["full"])
     c["ops"] = ops
+    # every result of an evaluation may be requested while a symbolic block is open around the consumer
+    c["ambients"] = [draw(st.sampled_from(["none", "none", "query", "rule"])) for _ in ops]
     return c
 
 
@@ -93,6 +95,12 @@ def strategy(tier):
     return _case(tier)
 
 
+def _ambient(name):
+    from entity_query_language import rule_mode
+    import contextlib
+    return symbolic_mode() if name == "query" else (rule_mode() if name == "rule" else contextlib.nullcontext())
+
+
 def check(case) -> Outcome:
     objs = build_entities(case["ents"])
     feats = case_features(case)
@@ -108,6 +116,8 @@ def check(case) -> Outcome:
     classes += [f for f in feats if f in ("and", "or", "not", "or_same_vars", "pred")]
     if case.get("large"):
         classes.append("domain_over_20_elements")
+    if any(a != "none" for a in case.get("ambients") or []):
+        classes.append("results_requested_inside_a_block")
     nontrivial = False
     skipped_before = bool(q_idx) and any(not qualifies[j] for j in range(q_idx[-1]))
 
@@ -131,7 +141,8 @@ def check(case) -> Outcome:
         got = []
         while want_n is None or len(got) < want_n:
             try:
-                r = next(gen)
+                with _ambient((case.get("ambients") or [])[step] if step < len(case.get("ambients") or []) else "none"):
+                    r = next(gen)
             except StopIteration:
                 break
             except Exception as e:
@@ -177,4 +188,4 @@ def check(case) -> Outcome:
 def render(case):
     return {"iterator_items": [f"{case['ents'][i]['cls']}#{i}" for i in case["doms"][0]],
             "decl": case["vars"][0]["decl"], "cond": A.r_cond(case["cond"]) if case.get("cond") is not None else None,
-            "history": case["ops"]}
+            "history": case["ops"], "block_open_around_the_consumer": case.get("ambients")}
